@@ -147,6 +147,21 @@ def run(ctx):
                   ("mathml", sep_expr), ("speech",)]
         histories.append(h)
         histories.append([("set", "Language", lang), ("get", "DecimalSeparators")] + h[:16] + [("set", "Language", "en"), ("get", "DecimalSeparators"), ("get", "BlockSeparators")])
+    # ... and depend only on the two preferences, not on the order in which they were set
+    sep_by_order = {}
+    for lang in ["en", "de", "de-ch", "de-li", "es", "es-mx", "sv", "fr-ch", "zz"]:
+        for ds in [",", ".", "Auto"]:
+            for order in ("dec-then-lang", "lang-then-dec"):
+                sets = [{"op": "set_pref", "name": "DecimalSeparator", "value": ds}, {"op": "set_pref", "name": "Language", "value": lang}]
+                reqs = [{"op": "session"}, {"op": "rules_dir", "dir": core.rules_dir()}] + (sets if order == "dec-then-lang" else sets[::-1]) + \
+                    [{"op": "get_pref", "name": "DecimalSeparators"}, {"op": "get_pref", "name": "BlockSeparators"}]
+                rep = im.run(reqs)
+                sep_by_order[(lang, ds, order)] = ([r.get("v") for r in rep[-2:]], reqs[1:])
+                evals += 1
+            a, b = sep_by_order[(lang, ds, "dec-then-lang")], sep_by_order[(lang, ds, "lang-then-dec")]
+            if a[0] != b[0]:
+                oracle_fail.append({"why": "the derived separators depend on the order in which Language and DecimalSeparator were set", "Language": lang, "DecimalSeparator": ds,
+                                    "decimal_then_language": a[0], "language_then_decimal": b[0], "lines": a[1]})
     for _ in range(n_hist):
         histories.append(gen_ops(rng, names, n_ops))
     all_names_probe = [("get", n) for n, _, _ in names]
